@@ -57,7 +57,9 @@ def byteLen (cs : List Char) : Nat := (cs.map Char.utf8Size).sum
 
 /-- `strings.Repeat(s, count)` for `count ≥ 0`: panics when `len(s) * count` overflows `int`. -/
 def goRepeat (cs : List Char) (count : Nat) : Option (List Char) :=
-  if byteLen cs * count > maxInt then Option.none else Option.some (List.replicate count cs).flatten
+  if byteLen cs * count > maxInt then Option.none
+  else if cs.isEmpty then Option.some []     -- `if len(s) == 0 { return "" }`
+  else Option.some (List.replicate count cs).flatten
 
 /-- Insertion sort by `<` on strings (`sort.Strings`: byte-wise order = code point order). -/
 def insertSorted (k : String) : List String → List String
